@@ -143,7 +143,7 @@ var clauseKw = map[string]bool{"requires": true, "ensures": true, "modifies": tr
 	"use": true, "by": true}
 var itemKw = map[string]bool{"spec": true, "lemma": true, "func": true, "interface": true, "trusted": true,
 	"guarded_by": true, "ghost": true, "writers": true, "global": true, "axiom": true, "immutable": true, "uninterp": true,
-	"functype": true, "monitor": true, "sends": true, "selectsends": true, "callsites": true, "invokes": true, "closureuse": true}
+	"functype": true, "monitor": true, "sends": true, "recvs": true, "selectsends": true, "callsites": true, "invokes": true, "closureuse": true}
 
 var labelRe = regexp.MustCompile(`^\[([A-Za-z0-9_\-\.]+)\]\s*`)
 
@@ -430,7 +430,7 @@ func parseContractFile(path, pkgPath string, requirePrefix bool) (*ContractFile,
 				g.Fields = append(g.Fields, strings.TrimSpace(f))
 			}
 			cf.Guarded = append(cf.Guarded, g)
-		case "writers", "sends", "selectsends", "callsites", "invokes", "closureuse":
+		case "writers", "sends", "recvs", "selectsends", "callsites", "invokes", "closureuse":
 			k := strings.LastIndex(rest, ":")
 			if k < 0 {
 				return nil, fail("bad %s declaration", w)
